@@ -570,6 +570,7 @@ type Clause struct {
 	File  string
 	Line  int
 	Tags  map[string]bool // property ids this clause counts for; empty = the function's props
+	At    string          // ensures only: applies at return statements whose source line contains this text
 }
 
 type GhostVar struct {
@@ -677,6 +678,14 @@ func (cs *ContractSet) ParseContractText(file string, pkgPath string, lines []st
 					c.Label = lab
 				}
 				rest = strings.TrimSpace(rest[j+1:])
+			}
+			if strings.HasPrefix(rest, "at \"") {
+				j := strings.Index(rest[4:], "\"")
+				if j < 0 {
+					return nil, errf("unterminated at \"...\"")
+				}
+				c.At = rest[4 : 4+j]
+				rest = strings.TrimSpace(rest[4+j+1:])
 			}
 			c.Src = rest
 			e, err := ParseExpr(rest)
